@@ -103,6 +103,10 @@ impl Ctx {
         self.world.wait_io_quiet();
     }
 
+    pub fn stall_transport(&self) {
+        self.world.stall_transport();
+    }
+
     pub fn force_push(&self, label: &str) -> bool {
         self.world.force_push(label)
     }
